@@ -37,6 +37,7 @@ man = {
         {"name": "vmon", "path": "harness/vmon", "serves_properties": sorted(CHECKS), "kind_free_text": "monitor runtime: seeded PRNG, panic capture, three-valued verdicts, per-engine reports, counting allocator"},
         {"name": "chk-net", "path": "harness/chk-net", "serves_properties": sorted(p for p in CHECKS if any(e["bin"] == "chk-net" for e in CHECKS[p]["engines"])), "kind_free_text": "pocketscion simulator / registry and edge-tun reassembler workloads with reference router, beaconing and provenance oracles"},
         {"name": "chk-snap", "path": "harness/chk-snap", "serves_properties": sorted(p for p in CHECKS if any(e["bin"] == "chk-snap" for e in CHECKS[p]["engines"])), "kind_free_text": "SNAP control plane / tunnel / gateway workloads (token verifier + router, identity registry + tunnel server, ingress filter via verif-hooks)"},
+        {"name": "chk-stack", "path": "harness/chk-stack", "serves_properties": sorted(p for p in CHECKS if any(e["bin"] == "chk-stack" for e in CHECKS[p]["engines"])), "kind_free_text": "scion-stack path manager stepped by hand through verif-hooks on a virtual clock (scripted fetcher, generated path pools)"},
         {"name": "chk-codec", "path": "harness/chk-codec", "serves_properties": sorted(p for p in CHECKS if any(e["bin"] == "chk-codec" for e in CHECKS[p]["engines"])), "kind_free_text": "sciparse-only workloads + reference oracles; built natively (release and debug-assert), under Miri and ASan"},
     ],
     "checks": checks,
